@@ -152,8 +152,8 @@ class Write(Harness):
                        # records whose lists are EMPTY: in the middle and at the end of the table
                        [[1, 0, 0, 1, 0, 0, 0, 0, 1, 0, 2, 2], [1, 0, 0, 1, 0, 0, 0, 0, 1, 0, 0, 0], [1, 0, 0, 1, 0, 0, 0, 0, 1, 0, 1, 1],
                         [1, 0, 0, 1, 0, 0, 0, 0, 1, 0, 0, 0]]],
-             "fasta2": [[[1, 1]], [[2, 3], [1, 1]]],
-             "fastq": [[[1, 1, 1]], [[2, 3, 3], [1, 1, 1]], [[1, 2, 2], [1, 1, 1], [2, 2, 2]]]}
+             "fasta2": [[[1, 1]], [[2, 3], [1, 1]], [[1, 1], [1, 0], [1, 2]]],
+             "fastq": [[[1, 1, 1]], [[2, 3, 3], [1, 1, 1]], [[1, 2, 2], [1, 1, 1], [2, 2, 2]], [[1, 0, 0], [1, 1, 1]]]}
         for tab, rowsets in T.items():
             for rows in rowsets:
                 n = len(rows)
@@ -199,8 +199,9 @@ class Write(Harness):
             for cuts in ((), (1,)) + (((1, 2), (0,)) if tier == "thorough" else ()):
                 out.append(dict(table="bedgraph", rows=[[1, 0, 0, 0]] * 3, floats=floats, cuts=list(cuts), int_range=[0, 12]))
         for w in (2, 3):
-            for lens in ([w - 1], [w], [w + 1], [2 * w, 1], [w, w + 1, 2 * w - 1]) + (([3 * w], [2 * w + 1, w]) if tier == "thorough" else ()):
-                rows = [[1, L] for L in lens if L > 0]
+            # empty sequences (written as one empty line) alone, last, first
+            for lens in ([w - 1], [w], [w + 1], [2 * w, 1], [w, w + 1, 2 * w - 1], [0], [w, 0], [0, w + 1]) + (([3 * w], [2 * w + 1, w]) if tier == "thorough" else ()):
+                rows = [[1, L] for L in lens]
                 for cuts in ([()] + ([(1,)] if len(rows) > 1 else [])):
                     out.append(dict(table="mfasta", rows=rows, cuts=list(cuts), width=w))
         return out
@@ -286,7 +287,7 @@ class Write(Harness):
                 lines.append([("text", [62 if tab != "fastq" else 64] + cell(0))])
                 if tab == "mfasta":
                     seq = cell(1)
-                    for k in range(0, len(seq), skel["width"]):
+                    for k in range(0, max(len(seq), 1), skel["width"]):
                         lines.append([("text", seq[k:k + skel["width"]])])
                 else:
                     lines.append([("text", cell(1))])
